@@ -391,14 +391,14 @@ theorem map_on_null_raises (F : FloatOps) (C : Cfg) (la il : Bool) (e : Ent) (es
     (hC : C.accessFalls = false) :
     mPat F C la (.map (e :: es) none) il (.direct (.tmp .null)) ρ = .err .access ∧
     ∀ b, mPat F C la (.map (e :: es) none) il (.direct (.tmp (.bool b))) ρ = .err .access := by
-  simp [mPat, container, Src.rd, tyFail, mEnts, tryAccess, hC]
+  cases hA : C.mapAtomic <;> simp [mPat, container, Src.rd, tyFail, mEnts, mEntsSeq, collectEnts, tryAccess, hC, hA]
 
 /-- with `requests/C03-fix-4.diff` it falls through -/
 theorem map_on_null_falls_through_repaired (F : FloatOps) (C : Cfg) (la il : Bool) (e : Ent) (es : List Ent)
     (ρ : Env) (hC : C.accessFalls = true) :
     mPat F C la (.map (e :: es) none) il (.direct (.tmp .null)) ρ = .fail ρ ∧
     ∀ b, mPat F C la (.map (e :: es) none) il (.direct (.tmp (.bool b))) ρ = .fail ρ := by
-  simp [mPat, container, Src.rd, tyFail, mEnts, tryAccess, hC]
+  cases hA : C.mapAtomic <;> simp [mPat, container, Src.rd, tyFail, mEnts, mEntsSeq, collectEnts, tryAccess, hC, hA]
 
 /-- F-C03-5 (recorded tree): `(rest...)` on any bounded range raises (Size and TempIndex accept
 ranges, SliceFrom does not) while `(...)` matches it -/
@@ -463,6 +463,34 @@ theorem first_alt_wins_partial (F : FloatOps) (C : Cfg) (p : Pat) (alts : List A
   | cons b rest =>
     have := (nonlast_alt_spec_partial F C p v ρ (ρ.apply β) hw he hv).2 ⟨β, hd, rfl⟩
     simp [mAlts, mAlt, this]
+
+/-! ## map patterns bind all-or-nothing (/repo 3d805f4) -/
+
+/-- a map pattern that does not match — whatever the reason: the map's type hint, a missing key
+(first, middle or last entry), an entry's failed type check — leaves *every* register untouched;
+in any alternative, at any position, with the subject in a register or a temporary -/
+theorem map_pattern_atomic (F : FloatOps) (C : Cfg) (la il : Bool) (es : List Ent) (ty : Option Ty) (a : Acc)
+    (ρ ρ' : Env) (hC : C.mapAtomic = true) (h : mPat F C la (.map es ty) il a ρ = .fail ρ') : ρ' = ρ := by
+  simp only [mPat] at h
+  cases hc : container ρ a with
+  | error e => rw [hc] at h; cases h
+  | ok s =>
+    rw [hc] at h
+    simp only at h
+    split at h
+    · cases h; rfl
+    · simp only [mEnts, hC, if_true] at h
+      cases hcol : collectEnts C es (s.rd ρ) with
+      | error er => rw [hcol] at h; cases h
+      | ok o =>
+        cases o with
+        | none => rw [hcol] at h; cases h; rfl
+        | some β => rw [hcol] at h; simp only at h; unfold fin at h; split at h <;> cases h
+
+/-- … and one that matches writes exactly the named entries, in entry order, in one go -/
+theorem map_pattern_commits (F : FloatOps) (C : Cfg) (es : List Ent) (v : Val) (ρ : Env) (β : Writes)
+    (hd : DeclEnts es v β) : mEnts C es (.tmp v) ρ = .ok (ρ.apply β) :=
+  (mEnts_spec (C := C) es v ρ).1 β hd
 
 /-! ## frame: what a pattern — matching or failing — can write -/
 
@@ -780,6 +808,12 @@ def outEnv : Out → Env
 def isInt (i : Int) : Val → Bool
   | .num (.i k) => k == Int64.ofInt i
   | _ => false
+def isStr (bs : List Nat) : Val → Bool
+  | .str cs => cs == bs
+  | _ => false
+def isNullV : Val → Bool
+  | .null => true
+  | _ => false
 def isU : Val → Bool
   | .str [85] => true
   | _ => false
@@ -821,7 +855,20 @@ theorem nonlast_alt_repaired_witness :
      isArm 0 r.out = true ∧ isInt 7 (outEnv r.out 0) = true) := by
   constructor <;> decide
 
-/-- F-C03-11: what the code does with the bindings of a failed alternative: they stay written.
+/-- the map-pattern variant of F-C03-11, repaired by 3d805f4: `x = 'orig'; match {x: 1}` /
+`{x, y} then …` / `else x` — the else arm runs with `x` untouched (before: `x = 1`, first entry
+written, second entry missing) -/
+theorem map_pattern_atomic_witness :
+    (let r := evalMatch F0 Cfg.repaired (.expr (.map [(.str [120], n 1)]))
+        [⟨[.one (.map [⟨[120], some 0, none⟩, ⟨[121], some 1, none⟩] none)], none⟩, ⟨[], none⟩] (ρ0.set 0 (.str [111]))
+     isArm 1 r.out = true ∧ isStr [111] (outEnv r.out 0) = true) ∧
+    (let r := evalMatch F0 { Cfg.repaired with mapAtomic := false } (.expr (.map [(.str [120], n 1)]))
+        [⟨[.one (.map [⟨[120], some 0, none⟩, ⟨[121], some 1, none⟩] none)], none⟩, ⟨[], none⟩] (ρ0.set 0 (.str [111]))
+     isArm 1 r.out = true ∧ isInt 1 (outEnv r.out 0) = true) := by
+  constructor <;> decide
+
+/-- F-C03-11 (what remains after 3d805f4): parenthesised patterns write element by element, and
+the bindings of an arm whose guard then fails stay written.
 `(a, 1)` against `(5, 2)` fails after `a` has received 5; the registers keep it (observable after
 the match when `a` is also a variable of the enclosing scope; the guide is silent). -/
 theorem failed_alt_writes_witness :
@@ -840,12 +887,6 @@ theorem typed_leak_witness :
      isArm 1 r.out = true ∧ isInt 1 (outEnv r.out 0) = true) := by
   constructor <;> decide
 
-def isStr (bs : List Nat) : Val → Bool
-  | .str cs => cs == bs
-  | _ => false
-def isNullV : Val → Bool
-  | .null => true
-  | _ => false
 
 /-- F-C03-10: a parenthesised pattern indexes a string by *bytes* (`'hé'` has size 3) and — since
 /repo 36e891c — raises when an element would cut a character (before: bound Null), whereas
